@@ -270,25 +270,61 @@ func (q *queueCtx) config() paths.Config {
 			}
 			// timing bookkeeping of the timed get: DEADLINE(D) = D := now() + timeout;
 			// REMAIN(R<-D) = R = D - now(); GOT(v) = v = GetNoWait()
+			// (the two quantities may be locals or fields of a small bookkeeping record; a record built by
+			// a literal fixes its deadline field where the literal is evaluated: DEADLINE(*.field))
+			locName := func(e ast.Expr) string {
+				switch x := ast.Unparen(e).(type) {
+				case *ast.Ident:
+					return x.Name
+				case *ast.SelectorExpr:
+					if _, ok := info.Selections[x]; ok {
+						return q.norm(x)
+					}
+				}
+				return ""
+			}
 			if as, ok := n.(*ast.AssignStmt); ok && len(as.Lhs) == len(as.Rhs) {
 				for i := range as.Lhs {
-					lid, ok := as.Lhs[i].(*ast.Ident)
-					if !ok {
+					ln := locName(as.Lhs[i])
+					if ln == "" {
 						continue
 					}
 					rhs := stripConvs(info, as.Rhs[i])
 					if be, ok := rhs.(*ast.BinaryExpr); ok {
 						switch {
 						case be.Op == token.ADD && (isClockCall(info, be.X) || isClockCall(info, be.Y)):
-							out = append(out, paths.Event{Kind: "DEADLINE", Arg: lid.Name, Pos: as.Pos()})
+							out = append(out, paths.Event{Kind: "DEADLINE", Arg: ln, Pos: as.Pos()})
 						case be.Op == token.SUB && isClockCall(info, be.Y):
-							if d, ok := stripConvs(info, be.X).(*ast.Ident); ok {
-								out = append(out, paths.Event{Kind: "REMAIN", Arg: lid.Name + "<-" + d.Name, Pos: as.Pos()})
+							if d := locName(stripConvs(info, be.X)); d != "" {
+								out = append(out, paths.Event{Kind: "REMAIN", Arg: ln + "<-" + d, Pos: as.Pos()})
 							}
 						}
 					}
 				}
 			}
+			ast.Inspect(n, func(m ast.Node) bool {
+				if _, isLit := m.(*ast.FuncLit); isLit {
+					return false
+				}
+				cl, ok := m.(*ast.CompositeLit)
+				if !ok {
+					return true
+				}
+				for _, el := range cl.Elts {
+					kv, ok := el.(*ast.KeyValueExpr)
+					if !ok {
+						continue
+					}
+					key, ok := kv.Key.(*ast.Ident)
+					if !ok {
+						continue
+					}
+					if be, ok := stripConvs(info, kv.Value).(*ast.BinaryExpr); ok && be.Op == token.ADD && (isClockCall(info, be.X) || isClockCall(info, be.Y)) {
+						out = append(out, paths.Event{Kind: "DEADLINE", Arg: "*." + key.Name, Pos: kv.Pos()})
+					}
+				}
+				return true
+			})
 			ast.Inspect(n, func(m ast.Node) bool {
 				switch v := m.(type) {
 				case *ast.FuncLit:
@@ -886,6 +922,12 @@ func c11Timeout(p *core.Program, r *core.Report, name string, fi *core.FuncInfo)
 		parts := strings.SplitN(pa[ri].Arg, "<-", 2)
 		rv, dv := parts[0], parts[1]
 		di := pa.IndexArg("DEADLINE", dv)
+		if di < 0 {
+			// a deadline fixed as a field of a bookkeeping record built by a literal
+			if k := strings.LastIndex(dv, "."); k >= 0 {
+				di = pa.IndexArg("DEADLINE", "*"+dv[k:])
+			}
+		}
 		li := pa.Index("LOOP")
 		if di < 0 || (li >= 0 && di > li) {
 			why = append(why, "the deadline "+dv+" is not fixed as now()+timeout before the retry loop")
